@@ -146,7 +146,7 @@ func (w *World) stores0() iface.Store {
 	panic("no store")
 }
 
-// forge a recipe=<r> [as=<w>] [base=<p>] [extra=eN] [k=<hex>] [v=<hex>]
+// forge a recipe=<r> [as=<w>] [base=<p>] [extra=eN] [k=<hex>] [v=<hex>] [raw=<hex payload>]
 func (w *World) forge(ctx context.Context, toks []string) {
 	a := atoi(toks[1])
 	args := kvArgs(toks[2:])
@@ -183,6 +183,10 @@ func (w *World) forge(ctx context.Context, toks []string) {
 		Next:    next,
 		Refs:    refs,
 		Clock:   entry.NewLamportClock(att.identity.PublicKey, w.maxTime()+1),
+	}
+	if raw, ok := args["raw"]; ok {
+		// a payload written by hand (a writer is not bound to what the store API produces)
+		data.Payload = unhx(raw)
 	}
 	if recipe == "otherlog" {
 		data.LogID = "/orbitdb/zdpuAmSomeOtherDatabaseRootCidXXXXXXXXXXXXXXXXXXXXXXXX/other"
